@@ -20,10 +20,55 @@ def pattern(n, salt=0):
 
 
 def run_scenario(sc, max_loops=60000):
-    faults = {int(k): (tuple(v) if isinstance(v, list) else v) for k, v in sc.get("faults", {}).items()}
+    faults = {int(k): (tuple(v) if isinstance(v, list) else v) for k, v in sc.get("faults", {}).items()
+              if str(k).lstrip("-").isdigit()}
+    # selective faults, keyed by content instead of frame index:
+    #   "always:<sender>:<pdu type>:<seq>"  -> every frame of that sender/type/sequence number
+    #   "abs:<sender>:<pdu type>:<index>"   -> the FIRST transmission of the segment with that ABSOLUTE index
+    #   "nth:<sender>:<pdu type>:<seq>:<n>" -> the n-th (1-based) frame of that sender/type/sequence number
+    selective = []
+    for k, v in sc.get("faults", {}).items():
+        parts = str(k).split(":")
+        if parts[0] in ("always", "abs", "nth"):
+            selective.append((parts[0], int(parts[1]), int(parts[2]), int(parts[3]),
+                              int(parts[4]) if len(parts) > 4 else None, tuple(v) if isinstance(v, list) else v))
+    seen_new = {}     # (sender, type) -> number of distinct new segments seen so far
+    last_seq = {}
+    counts = {}
 
     def policy(i, pdu):
-        return faults.get(i, "ok")
+        if i in faults:
+            return faults[i]
+        if not selective:
+            return "ok"
+        h = _e2e.decode_apdu_header(bytes(pdu.pduData))
+        if not h or "type" not in h or not h.get("seg"):
+            return "ok"
+        try:
+            sender = int(str(pdu.pduSource))
+        except ValueError:
+            return "ok"
+        key = (sender, h["type"])
+        seq = h["seq"]
+        # absolute index of this segment: count first appearances in order
+        n = seen_new.get(key, 0)
+        is_new = (seq == n % 256) and last_seq.get(key) != ("new", n)
+        absidx = None
+        if seq == n % 256:
+            absidx = n
+            seen_new[key] = n + 1
+        ck = key + (seq,)
+        counts[ck] = counts.get(ck, 0) + 1
+        for kind, snd, typ, val, nth, act in selective:
+            if snd != sender or typ != h["type"]:
+                continue
+            if kind == "always" and val == seq:
+                return act
+            if kind == "abs" and absidx is not None and val == absidx:
+                return act
+            if kind == "nth" and val == seq and counts[ck] == nth:
+                return act
+        return "ok"
     net = _e2e.E2ENet(policy=policy)
     a = net.add_stack(10, use_iocb=sc.get("iocb", False), **sc.get("a", {}))
     b = net.add_stack(20, **sc.get("b", {}))
